@@ -255,7 +255,11 @@ func (s *Store[H]) GetByHeight(ctx context.Context, height uint64) (H, error) {
 
 	// if the requested 'height' was not yet published
 	// we subscribe to it
-	err := s.heightSub.Wait(ctx, height)
+	err := s.heightSub.Wait(ctx, height, func() bool {
+		// the header might have been appended non-adjacently to the head since the lookup above
+		_, err := s.getByHeight(ctx, height)
+		return err == nil
+	})
 	if err != nil && !errors.Is(err, errElapsedHeight) {
 		return zero, fmt.Errorf("awaiting header %d with head %d: %w", height, s.Height(), err)
 	}
